@@ -31,10 +31,18 @@ func svPreRewards(pre *svRewardPre) func(e *svEnv) {
 				sv.Unreachable("matured balance")
 			}
 		}
-		pre.exists = sv.Choice("rw.validatorExists", 2) == 0
+		// present with stake, removed, or a record without power (it unstaked everything; the
+		// record is kept until tendermint has dropped the validator)
+		state := sv.Choice("rw.validatorExists", 3)
+		pre.exists = state != 1
 		if pre.exists {
 			val := svParty_(1)
-			v := identity.NewValidator(val.Addr, svParty_(0).Addr, val.Pub, val.Pub, *balance.NewAmount(5), "node")
+			pw := int64(5)
+			if state == 2 {
+				pw = 0
+			}
+			v := identity.NewValidator(val.Addr, svParty_(0).Addr, val.Pub, val.Pub, *balance.NewAmount(pw), "node")
+			v.Power = pw
 			if err := ctx.validators.WithState(ctx.deliver).Set(*v); err != nil {
 				sv.Unreachable("validator")
 			}
@@ -66,7 +74,7 @@ func svBuildRewardWithdraw(e *svEnv) (action.RawTx, []int) {
 
 // SV_C13_withdraw: one WITHDRAW_REWARD transaction.
 //
-// sv:bounds 2 parties; validator B present (stake address A) or removed; matured balances of both addresses and the rewards pool arbitrary; withdraw naming any validator address, signed by any party, any integer amount (whole OLT, scaled by 10^18 by the handler) in OLT or an unregistered currency; mempool-admitted regime
+// sv:bounds 2 parties; validator B present (stake address A), present with a zero-power record, or removed; matured balances of both addresses and the rewards pool arbitrary; withdraw naming any validator address, signed by any party, any integer amount (whole OLT, scaled by 10^18 by the handler) in OLT or an unregistered currency; mempool-admitted regime
 // sv:outside how matured balances accrue (SV_C13_split, interval bookkeeping); histories
 // sv:goal a successful withdraw pays a non-negative amount that does not exceed the matured balance of the named validator, lowers that balance and the rewards pool by exactly the amount, raises the withdrawn total and the signer's balance (net of the fee) by the same amount, touches no other validator's balance, and for a registered validator the signer is its stake address
 func SV_C13_withdraw() {
@@ -107,3 +115,12 @@ func SV_C13_withdraw() {
 	sv.Cover(amt.Sign() > 0 && vi == 1 && pre.exists, "withdrawn-by-stake-address")
 	sv.Cover(amt.Sign() > 0 && !(vi == 1 && pre.exists), "withdrawn-for-unregistered-validator")
 }
+
+// SV_C04_reward_withdrawal_authority: the rewards of a validator with a record
+// (elected or not) are paid only on the signature of its stake address (same
+// exploration as SV_C13_withdraw).
+//
+// sv:bounds as SV_C13_withdraw
+// sv:outside as SV_C13_withdraw
+// sv:goal as SV_C13_withdraw, in particular registered-validator's-rewards-go-to-its-stake-address
+func SV_C04_reward_withdrawal_authority() { SV_C13_withdraw() }
